@@ -88,6 +88,7 @@ package lang
 //@ func waitProcess [C04 C05] trusted
 //@   requires p != nil
 //@   modifies *p
+//@   ensures imp(old(p.Stdout) != nil, p.Stdout != nil) && imp(old(p.Stderr) != nil, p.Stderr != nil)
 
 //@ func (*Process).SetTerminatedState [C04 C05 C19]
 //@   requires p != nil
@@ -106,3 +107,68 @@ package lang
 //@   loop 1 step imp($idx > 0 && skipPipeline, (*procs)[$idx].hasTerminatedV && (*procs)[$idx].ExitNum == (*procs)[$idx-1].ExitNum)
 //@   loop 1 step imp($idx > 0 && !skipPipeline, (*procs)[$idx].hasTerminatedV == old((*procs)[$idx].hasTerminatedV) && (*procs)[$idx].ExitNum == old((*procs)[$idx].ExitNum))
 //@   loop 1 step imp($idx == 0, skipPipeline == old(skipPipeline))
+
+// ---- C28: function IDs (lang/funcid.go) -------------------------------------------------------------------
+
+//@ type funcID guarded_by mutex: list
+
+//@ func (*funcID).Deregister [C28 C05 C19]
+//@   requires f != nil && f.list != nil
+//@   modifies mapof(f.list)
+
+// ---- C05: try / trypipe ---------------------------------------------------------------------------------------
+
+//@ func checkTryErr [C05 C19]
+//@   requires p != nil && p.Stdout != nil && p.Stderr != nil && exitNum != nil
+//@   modifies *exitNum
+//@   ensures *exitNum == old(*exitNum) || (old(*exitNum) < 1 && *exitNum == 1)
+
+// One step of the trypipe loop = one process run, waited for and checked. At the next loop head
+// (i = the next process to run, exitNum = the exit number just checked):
+//  T1 after a success the next process to run is never a `||` alternative (every directly following
+//     alternative is skipped - a command skipped by `||` counts as succeeding);
+//  T2 everything between the process just run and the next one to run was marked terminated (skipped);
+//  T3 after a failure the alternative directly behind it runs (nothing is skipped);
+//  T4 the scan moves forward.
+// A failure whose successor is not a `||` alternative ends the block: that path returns and is
+// covered by the postcondition (the exit number returned is the failing one).
+//@ func runModeTryPipe [C05 C19]
+//@   requires procs != nil && GlobalFIDs.list != nil
+//@   requires forall(k, 0, len(*procs), (*procs)[k].Stdout != nil && (*procs)[k].Stderr != nil)
+//@   ensures imp(len(old(*procs)) == 0, result == 1)
+//@   loop 1 invariant 0 <= i && i <= len(*procs) && len(*procs) == len(old(*procs)) && GlobalFIDs.list != nil
+//@   loop 1 invariant forall(k, i, len(*procs), (*procs)[k].Stdout != nil && (*procs)[k].Stderr != nil)
+//@   loop 1 step imp(exitNum < 1 && i < len(*procs), !(*procs)[i].OperatorLogicOr)
+//@   loop 1 step forall(k, old(i)+1, i, (*procs)[k].hasTerminatedV)
+//@   loop 1 step imp(exitNum > 0, i == old(i)+1)
+//@   loop 1 step i > old(i)
+//@   loop 1 decreases len(*procs) - i
+//@   loop 2 invariant old@loop1(i) <= i && i < len(*procs) && len(*procs) == len(old(*procs)) && exitNum < 1 && GlobalFIDs.list != nil
+//@   loop 2 invariant forall(k, old@loop1(i)+1, i+1, (*procs)[k].hasTerminatedV)
+//@   loop 2 invariant forall(k, i+1, len(*procs), (*procs)[k].Stdout != nil && (*procs)[k].Stderr != nil)
+//@   loop 2 decreases len(*procs) - i
+//@   loop 3 invariant 0 <= i && i <= len(*procs) && len(*procs) == len(old(*procs)) && GlobalFIDs.list != nil
+//@   loop 3 invariant forall(k, i, len(*procs), (*procs)[k].Stdout != nil && (*procs)[k].Stderr != nil)
+//@   loop 3 decreases len(*procs) - i
+
+// try: only the last process of each pipeline is waited for and checked (a process whose successor
+// is a method is a pipeline member: it is started and the scan moves on). T1..T4 as for trypipe;
+// T1 is stated for pipeline heads (a method is never a `||` alternative).
+//@ func runModeTry [C05 C19]
+//@   requires procs != nil && GlobalFIDs.list != nil
+//@   requires forall(k, 0, len(*procs), (*procs)[k].Stdout != nil && (*procs)[k].Stderr != nil)
+//@   ensures imp(len(old(*procs)) == 0, result == 1)
+//@   loop 1 invariant 0 <= i && i <= len(*procs) && len(*procs) == len(old(*procs)) && GlobalFIDs.list != nil
+//@   loop 1 invariant forall(k, i, len(*procs), (*procs)[k].Stdout != nil && (*procs)[k].Stderr != nil)
+//@   loop 1 step imp(exitNum < 1 && i < len(*procs) && !(*procs)[i].IsMethod, !(*procs)[i].OperatorLogicOr)
+//@   loop 1 step forall(k, old(i)+1, i, (*procs)[k].hasTerminatedV)
+//@   loop 1 step imp(exitNum > 0, i == old(i)+1)
+//@   loop 1 step i > old(i)
+//@   loop 1 decreases len(*procs) - i
+//@   loop 2 invariant old@loop1(i) <= i && i < len(*procs) && len(*procs) == len(old(*procs)) && exitNum < 1 && GlobalFIDs.list != nil
+//@   loop 2 invariant forall(k, old@loop1(i)+1, i+1, (*procs)[k].hasTerminatedV)
+//@   loop 2 invariant forall(k, i+1, len(*procs), (*procs)[k].Stdout != nil && (*procs)[k].Stderr != nil)
+//@   loop 2 decreases len(*procs) - i
+//@   loop 3 invariant 0 <= i && i <= len(*procs) && len(*procs) == len(old(*procs)) && GlobalFIDs.list != nil
+//@   loop 3 invariant forall(k, i, len(*procs), (*procs)[k].Stdout != nil && (*procs)[k].Stderr != nil)
+//@   loop 3 decreases len(*procs) - i
